@@ -44,6 +44,8 @@ let msg_of_descr (d : string) : msg =
   | "R" -> MRoute (pph_of (i 1), Some (URoutes (n (i 2), plist f.(4), n (i 3), n (i 5), plist f.(6))))
   | "E" -> MRoute (pph_of (i 1), Some (UEor (n (i 2))))
   | "N" -> MRoute (pph_of (i 1), None)
+  (* the octets of an UPDATE, read by C04's decoder as in the pipeline model (Pipe/PipeRaw.v) *)
+  | "RB" -> MRoute (pph_of (i 1), PipeRaw.raw_upd (C04_util.ns_of_hex f.(2)))
   | s -> failwith ("bad descriptor " ^ s)
 
 let cap = 1 lsl 20
@@ -92,11 +94,17 @@ let run_case (line : string) : string =
       | ["B"; h] -> evs := !evs @ [`B (unhex h)]
       | ["E"; k] -> evs := !evs @ [`E (Stdlib.List.assoc k kinds)]
       | ["Z"; t] -> hang := (t = "hang")
+      | ["G"] -> evs := !evs @ [`G]
       | [] -> ()
       | _ -> failwith ("bad op: " ^ s)) (split_on ';' line);
-  let flat = Array.of_list (Stdlib.List.concat_map (function `B l -> Stdlib.List.map (fun b -> Some b) l | `E _ -> [None]) !evs) in
+  let flat = Array.of_list (Stdlib.List.concat_map (function `B l -> Stdlib.List.map (fun b -> Some b) l | `E _ -> [None] | `G -> []) !evs) in
   if declares_huge flat then "HUGE" else begin
-    let mevs = Stdlib.List.concat_map (function `B l -> Stdlib.List.map (fun b -> EByte (n b)) l | `E k -> [EErr k]) !evs in
+    let mevs = Stdlib.List.concat_map (function `B l -> Stdlib.List.map (fun b -> EByte (n b)) l | `E k -> [EErr k] | `G -> []) !evs in
+    (* where the HTTP client asks: after how many read events *)
+    let gets =
+      let k = ref 0 and acc = ref [] in
+      Stdlib.List.iter (function `B l -> k := !k + Stdlib.List.length l | `E _ -> incr k | `G -> acc := !k :: !acc) !evs;
+      Stdlib.List.rev !acc in
     let parse fr = if !full then (match Stdlib.List.assoc_opt (hex_of fr) !table with
                                   | Some d when d <> "y" -> Some (msg_of_descr d) | _ -> None) else None in
     let (rid, s0) = conn_init (n 1) in
@@ -131,10 +139,26 @@ let run_case (line : string) : string =
       | GEos id -> "eos:" ^ name_of reg id in
     let full_tokens s out =
       if !full then ["|"; Printf.sprintf "phase:%d" (int_of_n (phase_idx s.s_sm.sm_phase))] @ Stdlib.List.map (show s.s_reg) out else [] in
+    (* the pages: BmpPageModel.page_at. The reader gets to a `G` placed after k events iff it is asked for more
+       at that point: more events were consumed, or exactly k and the session ended on the tail of the script *)
+    let get_tokens e pos =
+      Stdlib.List.map (fun k ->
+          let reached = k < pos || (k = pos && (e = EndEof || e = EndTerm)) in
+          match BmpPageModel.page_at parse rid mevs (nat_of_int k) s0 with
+          | None -> if reached then failwith "page_at: session over, but the reader is asked again" else "g:-"
+          | Some _ when not reached -> failwith "page_at: session alive, but the reader is not asked again"
+          | Some None -> "g:L200,Ipanic,m1"
+          | Some (Some l) ->
+              if !full then begin
+                let ids = Stdlib.List.map int_of_n l in
+                let rec asc = function a :: (b :: _ as r) -> a < b && asc r | _ -> true in
+                Printf.sprintf "g:L200,I200,m1,e%d,o%d" (Stdlib.List.length ids) (if asc ids then 1 else 0)
+              end else "g:L200,I200,m1") gets in
     match res with
     | Done (e, rest, s, out) ->
         let en = match e with EndEof -> "eof" | EndErr k -> "e-" ^ kind_name k | EndShort -> "bytes" | EndTerm -> "hang" in
-        join " " ([ "end:" ^ en; Printf.sprintf "pos:%d" (total - Stdlib.List.length rest) ] @ shape_tokens out @ full_tokens s out)
+        let pos = total - Stdlib.List.length rest in
+        join " " ([ "end:" ^ en; Printf.sprintf "pos:%d" pos ] @ shape_tokens out @ get_tokens e pos @ full_tokens s out)
     | Panic (_, rest, s) ->
         join " " ([ "PANIC"; "end:bytes"; Printf.sprintf "pos:%d" (total - Stdlib.List.length rest) ] @ shape_tokens s.s_out @ full_tokens s s.s_out)
     | OutOfFuel -> "WEDGE"
